@@ -1,6 +1,6 @@
 SPECIFICATION MCSpec
 CONSTANTS
-  Guards = {"G1", "G2", "G3", "G4", "G5"}
+  Guards = {"G2", "G3", "G4", "G5"}
   MaxSteps = 12
 INVARIANTS Loadable NoCommittedOpLost BeforeOrAfter WcRecoverable
 CHECK_DEADLOCK FALSE
